@@ -105,11 +105,8 @@ def run_vu(vu, prop, seed=0, open_findings=(), start=None, split_at=None):
                 except LoopCut:
                     pass
                 finally:
-                    # later paths start from a clean import state again
-                    rt.module_cache.clear()
-                    rt.global_ids.clear()
-                    for c in rt.class_cache.values():
-                        c.attrs = {k: v for k, v in c.attrs.items() if not isinstance(v, (PDictT, list))}
+                    # later paths start from a clean import state again: the whole runtime is rebuilt
+                    rt_box.clear()
             return out
 
         paths, obs, leftover = core.explore(theory, run, stats, timeout_ms=vu.timeout_ms, seed=seed,
